@@ -43,7 +43,8 @@ TRUSTED_BASE = [
     "Model/Locks.v (hand-written): which function runs in which role and which roles overlap; Init = before the servers start "
     "(FBDNSDB.Load and FBDNSDB.ValidateDbKey are assumed to finish before the first reload signal - NewFBDNSDB starts the ReloadChan "
     "consumer and the periodic ticker before Load, the code does not enforce this); exception: rdb.Context is goroutine-confined",
-    "fresh accesses (object allocated in the same function, captured local before the go statement) are ordered by publication",
+    "fresh accesses (object allocated in the same function - assumed unpublished until that function returns -, captured local "
+    "before the go statement) are ordered before all others by the publication of the object",
     "Model/Pool.v is a hand-written counting abstraction of rdb_iteratorPool.go / RDB.CatchWithPrimary / reloadMu, tied to the code by "
     "C14_pool_model_tie (lock structure read off the generated table) and by reading; one helper goroutine; RDB.Close not modelled",
     "the race detector only sees schedules that happen; known findings are matched by field and by (unlocked reader, writer) functions",
@@ -217,6 +218,8 @@ def differential(ctx):
         "tie to /repo: coq/Gen/Access.v is TRANSLATED from the Go sources at every run (gotab); race reports of the real code are "
         "cross-checked against that table (model_ok); Model/Pool.v is hand-written",
     ] + TRUSTED_BASE
+    if getattr(ctx, "checker_cmd", None):
+        ctx.cov["checker_cmd"] = "harness/bin/gotab -repo %s -out coq/Gen/Access.v && %s" % (checklib.REPO, ctx.checker_cmd)
     binp, out = checklib.harness_build(ctx)
     focus = None
     if not getattr(ctx, "coq_ok", False) and getattr(ctx, "run_ok", False):
@@ -276,3 +279,55 @@ def differential(ctx):
         len(scen), sum(c.get("queries", 0) for c in scen), sum(c.get("reloads", 0) for c in scen), len(races)))
     ctx.cov["stress"] = [{k: c.get(k) for k in ("queries", "reloads", "reload_errors", "panics", "timeout", "races")} | {"scenario": c["scenario"]["name"]} for c in scen]
     checklib.evaluate_and_classify(ctx, binp, cases, relation="C14: every race the detector reports is flagged by the lockset table")
+
+
+def replay(ctx, doc):
+    """./check C14 --replay file: re-runs the scenario of the recorded case under the race detector
+    and reports whether a race / crash outside the known findings shows again (schedules are not
+    deterministic: a pass of a replay is weaker than a failure)."""
+    case = doc.get("case")
+    if case is None:
+        print("replay file names broken obligations, not a schedule:", json.dumps(doc.get("theorem") or doc.get("relation"))[:1500])
+        checklib.proof_step(ctx)
+        ok = not ctx.broken
+        ctx.cleanup()
+        print("obligations check again" if ok else "still broken: %s" % ctx.broken)
+        return 0 if ok else 1
+    pre_build(ctx)
+    rc, out = checklib.coq_make(ctx, ["Run/%s.vo" % ID])
+    if rc != 0:
+        print("Run/C14.v does not build:", out[-1500:])
+        ctx.cleanup()
+        return 1
+    ctx.run_ok = True
+    binp, out = checklib.harness_build(ctx)
+    if binp is None:
+        print(out[-2000:])
+        ctx.cleanup()
+        return 1
+    rp = os.path.join(ctx.scratch, "replay_in.jsonl")
+    with open(rp, "w") as f:
+        f.write(json.dumps(case) + "\n")
+    rc, out, got = checklib.harness_run(ctx, binp, 0, doc.get("seed", 1), os.path.join(ctx.scratch, "replay_out.jsonl"), replay=rp)
+    if rc != 0 or not got:
+        print("replay run failed:", out[-2000:])
+        ctx.cleanup()
+        return 1
+    bm, bs, err = checklib.coq_eval(ctx, got)
+    known = [f for f in checklib.load_known().get("findings", []) if f.get("property") == ID and f.get("status") == "open"]
+    bad = []
+    for i in bs:
+        c = got[i]
+        f = known_finding(c, known)
+        if f:
+            print("known finding %s seen again: %s" % (f["id"], json.dumps(nontrivial(c))))
+        else:
+            bad.append(c)
+            print("NOT a known finding:", json.dumps(checklib.trim_sample(c))[:1500])
+    print("cases: %d, spec failures: %d (outside known findings: %d), table misses: %d %s" % (len(got), len(bs), len(bad), len(bm), err or ""))
+    ctx.cleanup()
+    if bad or err:
+        print("VIOLATION property=%s replay=%s" % (ID, doc.get("_path", "")))
+        return 1
+    print("%s: replay shows no race / crash outside the known findings on the current tree" % ID)
+    return 0
